@@ -29,7 +29,7 @@ ID = 'C09'
 TITLE = 'Eviction starts only at the size limit and follows the configured policy order'
 COQ_PROP = 'C09'
 LEVEL = 'proof'
-TRANSLATE = ['sql', 'fanout']
+TRANSLATE = ['sql', 'fanout', 'format', 'persistent', 'disk']
 TRUSTED = [
     'coq/base/SqlBase.v: ORDER BY as a stable sort of the table (ties in ascending rowid), LIMIT as a prefix, DELETE ... WHERE rowid IN '
     '(SELECT ...) as removal of the selected rowids; validated by the row-level correspondence of this check after every call',
